@@ -45,8 +45,10 @@ use indexmap::IndexMap;
 /// let solution = auto_solver(&model).unwrap();
 /// ```
 pub fn auto_solver(lp: &LinearModel) -> Result<LpSolution<MILPValue>, SolverError> {
-    if lp.domain().is_empty() {
-        // A variable-free model still carries a constant objective (the offset).
+    if lp.domain().is_empty() && lp.constraints().is_empty() {
+        // A variable-free model still carries a constant objective (the offset). Only
+        // a model without rows can be answered here: a variable-free row such as
+        // `0 <= -1` still decides feasibility, so the solver has to look at it.
         return Ok(LpSolution::new(
             vec![],
             lp.objective_offset(),
